@@ -617,56 +617,90 @@ func unicodeLower(r rune) rune {
 // escapeCaptures: R-escape-capture — what the numeric escape alternatives
 // capture: after \0x the longest run of hex digits in either case (at least
 // one); after \ up to three octal digits with a value of at most 0377.
-func escapeCaptures(c *Check, g *pgrammar) {
+func escapeCaptures(c *Check, r *Repo, g *pgrammar) {
+	// the escape rule: the one that calls the numeric decoders, or — when the decoding is done in the
+	// actions themselves — the one that reads \0x41 and \101 completely
 	esc := findRule(g, func(rl *prule) bool { return hasCall(rl.Expr, "AddHexaCharacter") })
-	if esc == nil || esc.Expr.Op != "alt" {
-		c.Und("R-escape-capture", "peg.peg/escape rule", "", "the rule with the numeric escape actions was not found or is not a choice")
+	if esc == nil {
+		reads := func(rl *prule) bool {
+			e1, ok1, _, u1 := runRule(g, rl.Name, `\0x41`)
+			e2, ok2, _, u2 := runRule(g, rl.Name, `\101`)
+			return u1 == "" && u2 == "" && ok1 && ok2 && e1 == 5 && e2 == 4
+		}
+		cands := map[string]bool{}
+		for _, rl := range g.Rules {
+			if reads(rl) {
+				cands[rl.Name] = true
+			}
+		}
+		// the innermost one: it refers to no other rule that reads them too
+		esc = findRule(g, func(rl *prule) bool {
+			if !cands[rl.Name] {
+				return false
+			}
+			inner := false
+			var walk func(e *pexpr)
+			walk = func(e *pexpr) {
+				if e.Op == "name" && cands[e.S] && e.S != rl.Name {
+					inner = true
+				}
+				for _, k := range e.Kids {
+					walk(k)
+				}
+			}
+			walk(rl.Expr)
+			return !inner
+		})
+	}
+	if esc == nil {
+		c.Und("R-escape-capture", "peg.peg/escape rule", "", "no rule reads the numeric escapes \\0x41 and \\101")
 		return
 	}
 	pos := fmt.Sprintf("peg.peg:%d", esc.Line)
-	// the numeric alternatives, in order, as one choice; text = what the capture matched
-	type numAlt struct {
-		e      *pexpr
-		method string
-	}
-	var nums []numAlt
-	for _, alt := range esc.Expr.Kids {
-		for _, m := range []string{"AddHexaCharacter", "AddOctalCharacter"} {
-			if hasCall(alt, m) {
-				nums = append(nums, numAlt{alt, m})
-			}
-		}
-	}
-	if len(nums) < 2 {
-		c.Bad("R-escape-capture", "peg.peg/"+esc.Name+" numeric escapes", pos, "fewer than two numeric escape alternatives (hex and octal) found")
-		return
-	}
-	// run: which alternative takes the escape s (s starts after nothing: full text incl. backslash), and the captured text
+	// run: the rule is evaluated as data on the escape s (PEG semantics, actions of the successful
+	// derivation): which builder is called with what, consuming how much — whatever the rule's
+	// layout (one choice, a factored prefix, helper rules, decoding inside the action)
 	run := func(s string) (method, text string, end int, ok bool) {
-		rs := []rune(s)
-		for _, na := range nums {
-			if na.e.Op != "seq" {
-				continue
+		e, accepted, tr, u := runRule(g, esc.Name, s)
+		if u != "" {
+			panic(undecided{u})
+		}
+		if !accepted {
+			return "", "", 0, false
+		}
+		for _, a := range tr {
+			calls, u := concreteCalls(r, g, a.code, a.text)
+			if u != "" {
+				panic(undecided{u})
 			}
-			p := 0
-			okAll := true
-			capText := ""
-			for _, k := range na.e.Kids {
-				np, ok := pmatch(k, rs, p)
-				if !ok {
-					okAll = false
-					break
+			_, plain := plainAction(a.code)
+			for _, cs := range calls {
+				t := ""
+				if len(cs.Args) == 1 {
+					t = cs.Args[0]
 				}
-				if k.Op == "capture" {
-					capText = string(rs[p:np])
+				if cs.Method == "AddHexaCharacter" || cs.Method == "AddOctalCharacter" {
+					return cs.Method, t, e, true
 				}
-				p = np
-			}
-			if okAll {
-				return na.method, capText, p, true
+				if cs.Method == "AddCharacter" && !plain {
+					return "AddCharacter(computed)", t, e, true
+				}
 			}
 		}
-		return "", "", 0, false
+		// accepted as some other escape
+		return "", "", e, false
+	}
+	// agrees: the builder receives the digits (decoded by it: R-escape-range), or the action hands
+	// over the character the digits denote
+	agrees := func(m, text, decoder, digits string, base int) bool {
+		if m == decoder {
+			return text == digits
+		}
+		if m == "AddCharacter(computed)" {
+			v, err := strconv.ParseInt(digits, base, 32)
+			return err == nil && text == string(rune(v))
+		}
+		return false
 	}
 	var bad []string
 	und := ""
@@ -690,7 +724,7 @@ func escapeCaptures(c *Check, g *pgrammar) {
 						m, text, end, ok := run(s)
 						n++
 						want := string(d) + string(d2)
-						if !ok || m != "AddHexaCharacter" || text != want || end != len([]rune(pre))+2 {
+						if !ok || !agrees(m, text, "AddHexaCharacter", want, 16) || end != len([]rune(pre))+2 {
 							bad = append(bad, fmt.Sprintf("the escape %s is read as %s(%q) consuming %d characters (expected AddHexaCharacter(%q))", s, m, text, end, want))
 						}
 					}
@@ -720,7 +754,7 @@ func escapeCaptures(c *Check, g *pgrammar) {
 						if ok {
 							bad = append(bad, fmt.Sprintf("the escape %s is accepted as %s(%q); it is not an octal escape", s, m, text))
 						}
-					} else if !ok || m != "AddOctalCharacter" || text != prefix[:want] || end != 1+want {
+					} else if !ok || !agrees(m, text, "AddOctalCharacter", prefix[:want], 8) || end != 1+want {
 						bad = append(bad, fmt.Sprintf("the escape %s is read as %s(%q) (expected AddOctalCharacter(%q))", s, m, text, prefix[:want]))
 					}
 				}
